@@ -88,6 +88,141 @@ Proof.
   apply Z.eqb_eq. rewrite (He d). unfold liab, msum, sumz, act_fee, earn_in. reflexivity.
 Qed.
 
+(** ** the stored contexts have distinct ids (a map, not a list, in the store) *)
+Definition kc (s s' : state) : Prop := NoDup (keys (ctxs s)) -> NoDup (keys (ctxs s')).
+
+Lemma kc_refl s : kc s s.
+Proof. intros H. exact H. Qed.
+Lemma kc_same s s' : ctxs s' = ctxs s -> kc s s'.
+Proof. intros E H. rewrite E. exact H. Qed.
+Lemma kc_trans s1 s2 s3 : kc s1 s2 -> kc s2 s3 -> kc s1 s3.
+Proof. intros A B H. apply B, A, H. Qed.
+Lemma kc_set s id x' t : ctxs t = set id x' (ctxs s) -> kc s t.
+Proof. intros E H. rewrite E. apply keys_set_NoDup. exact H. Qed.
+
+Lemma keys_del_NoDup {K V} `{EqDec K} (k : K) (m : amap K V) : NoDup (keys m) -> NoDup (keys (del k m)).
+Proof.
+  induction m as [|[k0 v0] m IH]; simpl; intros Hnd; [constructor|]. inversion Hnd as [|? ? Hn Hnd']; subst.
+  destruct (eq_dec k k0); [apply IH; exact Hnd'|]. simpl. constructor; [|apply IH; exact Hnd'].
+  intros Hin. apply Hn. clear -Hin. induction m as [|[k1 v1] m IH]; simpl in *; [exact Hin|].
+  destruct (eq_dec k k1); [right; apply IH; exact Hin|]. simpl in Hin. destruct Hin as [->|Hin]; [left; reflexivity|right; apply IH; exact Hin].
+Qed.
+
+Ltac kc_frame H :=
+  repeat dmn H; inversion H; subst; clear H;
+  first [apply kc_same; reflexivity | eapply kc_set; reflexivity].
+
+Lemma create_context_kc c s txh svc provs cons inok capd capa timeout rep freq total st thr md s' id :
+  create_context c s txh svc provs cons inok capd capa timeout rep freq total st thr md = Some (s', id) -> kc s s'.
+Proof.
+  intros H. destruct (create_context_shape _ _ _ _ _ _ _ _ _ _ _ _ _ _ _ _ _ _ H) as (_ & _ & _ & _ & _ & x & C & _).
+  eapply kc_set. exact C.
+Qed.
+
+Lemma respond_kc c s rid prov kind s' : respond c s rid prov kind = Okk s' -> kc s s'.
+Proof.
+  intros H. destruct (respond_shape _ _ _ _ _ _ H) as (q & x & q' & x' & _ & _ & _ & _ & _ & _ & _ & C & _).
+  eapply kc_set. exact C.
+Qed.
+
+Lemma exec_msg_plain_kc c s txh m s' : exec_msg_plain c s txh m = Okk s' -> kc s s'.
+Proof.
+  intros H. destruct m; simpl in H.
+  - unfold define in H. kc_frame H.
+  - unfold bind in H. kc_frame H.
+  - unfold update_binding in H. kc_frame H.
+  - unfold set_withdraw in H. kc_frame H.
+  - unfold enable in H. kc_frame H.
+  - unfold disable in H. kc_frame H.
+  - unfold refund_deposit in H. kc_frame H.
+  - unfold call in H. destruct (negb _); [discriminate|].
+    destruct (create_context _ _ _ _ _ _ _ _ _ _ _ _ _ _ _ _) as [[s1 id]|] eqn:E; [|discriminate].
+    inversion H; subst. eapply create_context_kc. exact E.
+  - eapply respond_kc. exact H.
+  - unfold msg_ctl, k_pause in H. kc_frame H.
+  - unfold msg_ctl, k_start in H. kc_frame H.
+  - unfold msg_ctl, k_kill in H. kc_frame H.
+  - unfold update_context in H. kc_frame H.
+  - unfold withdraw in H. kc_frame H.
+Qed.
+
+Lemma call_module_kc c s txh svc provs cons inok capd capa timeout rep freq total s' :
+  call_module c s txh svc provs cons inok capd capa timeout rep freq total = Okk s' -> kc s s'.
+Proof.
+  unfold call_module. intros H. destruct (negb _); [discriminate|].
+  destruct (create_context c s txh svc [c_mprov c] cons inok capd capa 1 false 0 0 0 0 false) as [[s1 id]|] eqn:E1; [|discriminate].
+  pose proof (create_context_kc _ _ _ _ _ _ _ _ _ _ _ _ _ _ _ _ _ _ E1) as I1.
+  destruct (get id (ctxs s1)) as [x|] eqn:Ex; [|discriminate].
+  destruct (filter_provs s1 x (x_provs x)) as [[|p0 ps]|]; try discriminate.
+  destruct (debit_all (led s1) (x_cons x) (total_fees s1 x [c_mprov c])) as [l|]; [|discriminate].
+  set (s2 := initiate_ms (with_led s1 (credit_all l REQ (total_fees s1 x [c_mprov c]))) id x [c_mprov c]) in *.
+  assert (I2 : kc s1 s2) by (eapply (kc_set s1 id); reflexivity).
+  destruct (respond c s2 (id, x_batch x + 1, height s, 0) (c_mprov c) 1) as [s3| |] eqn:Er; try discriminate.
+  pose proof (respond_kc _ _ _ _ _ _ Er) as I3. cbv beta iota in H. injection H as <-.
+  eapply kc_trans; [exact I1|]. eapply kc_trans; [exact I2|]. eapply kc_trans; [exact I3|].
+  eapply (kc_set s3 id); reflexivity.
+Qed.
+
+Lemma exec_msg_kc c s txh m s' : exec_msg c s txh m = Okk s' -> kc s s'.
+Proof.
+  intros H. destruct m; cbn [exec_msg] in H; try (eapply exec_msg_plain_kc; eassumption).
+  - destruct (module_served c svc); [discriminate|].
+    eapply (exec_msg_plain_kc c s txh (MBind svc prov depd depa pr qos optok owner)); exact H.
+  - destruct (module_served c svc); [eapply call_module_kc; exact H|].
+    eapply (exec_msg_plain_kc c s txh (MCall svc provs cons inok capd capa timeout rep freq total)); exact H.
+Qed.
+
+Lemma expired_handler_kc c s id : kc s (expired_batch_handler c s id).
+Proof.
+  unfold expired_batch_handler. destruct (get id (ctxs s)) as [x|] eqn:Eg; [|apply kc_refl].
+  set (pr := if x_brun x then _ else (s, x)).
+  assert (C : ctxs (fst pr) = ctxs s).
+  { subst pr. destruct (x_brun x); [|reflexivity]. simpl.
+    destruct (expire_fold_qsame c x (filter (fun e => in_batch id (x_batch x) e && q_active (snd e)) (reqs s)) s) as (C & _).
+    destruct (x_mod x); [|exact C]. destruct (callback_qsame (fold_left (expire_request c x) (filter (fun e => in_batch id (x_batch x) e && q_active (snd e)) (reqs s)) s) id) as (C2 & _). congruence. }
+  destruct pr as [s1 x1]. simpl in C. cbv zeta. intros H.
+  destruct (x_state x1 =? 2); destruct (x_state x1 =? 0); try destruct (x_rep x1 && _); simpl; rewrite ?C;
+    repeat first [apply keys_del_NoDup | apply keys_set_NoDup]; exact H.
+Qed.
+
+Lemma new_handler_kc s id : kc s (new_batch_handler s id).
+Proof.
+  unfold new_batch_handler. destruct (get id (ctxs s)) as [x|] eqn:Eg; [|apply kc_refl].
+  destruct (x_state x =? 0); [|apply kc_same; reflexivity].
+  destruct (filter_provs s x (x_provs x)) as [ps|]; [|eapply kc_set; reflexivity].
+  cbv zeta. destruct (_ && _); [|eapply kc_set; reflexivity].
+  destruct (debit_all _ _ _); [eapply kc_set; reflexivity|].
+  unfold on_paused. destruct (x_mod x); (eapply kc_set; reflexivity).
+Qed.
+
+Lemma apply_kc c s st : kc s (apply c s st).
+Proof.
+  unfold apply. destruct (exec_step c s st) as [s'| |] eqn:E; try apply kc_refl.
+  destruct st; cbn [exec_step] in E.
+  - eapply exec_msg_kc. exact E.
+  - destruct (0 <=? dt); [|discriminate]. inversion E; subst. unfold end_block. cbv zeta.
+    set (s1 := fold_left (expired_batch_handler c) _ s).
+    assert (H1 : kc s s1).
+    { subst s1. apply (fold_left_inv (fun t => kc s t)); [|apply kc_refl].
+      intros t id Ht. eapply kc_trans; [exact Ht|apply expired_handler_kc]. }
+    set (s2 := fold_left new_batch_handler _ s1).
+    assert (H2 : kc s s2).
+    { subst s2. apply (fold_left_inv (fun t => kc s t)); [|exact H1].
+      intros t id Ht. eapply kc_trans; [exact Ht|apply new_handler_kc]. }
+    eapply kc_trans; [exact H2|apply kc_same; reflexivity].
+  - inversion E; subst. apply kc_same. reflexivity.
+  - kc_frame E.
+  - destruct (create_context _ _ _ _ _ _ _ _ _ _ _ _ _ _ _ _) as [[s1 id]|] eqn:E1; [|discriminate].
+    inversion E; subst. eapply create_context_kc. exact E1.
+  - unfold k_pause in E. kc_frame E.
+  - unfold k_start in E. kc_frame E.
+  - unfold k_kill in E. kc_frame E.
+  - unfold bind in E. kc_frame E.
+Qed.
+
+Lemma reach_kc c steps : forall s, NoDup (keys (ctxs s)) -> NoDup (keys (ctxs (run c s steps))).
+Proof. induction steps as [|st r IH]; intros s H; [exact H|]. cbn [run]. apply IH. apply apply_kc. exact H. Qed.
+
 (** ** C08, clauses 8 and 9 *)
 Lemma c08_clause8_new univ code nc cb s e : QInv s ->
   let o := obs_of univ code nc cb s in
@@ -148,6 +283,18 @@ Proof.
     + not_here E.
 Qed.
 
+Lemma c08_clause8_ctx univ code nc cb s e : QInv s -> NoDup (keys (ctxs s)) ->
+  let o := obs_of univ code nc cb s in
+  In e (o_ctxs o) -> (negb (t_brun (snd e)) || has (fst e) (o_expmark o)) = true.
+Proof.
+  intros Hq Hnd o Hin. subst o. destruct (in_obs_ctxs univ code nc cb s e Hnd Hin) as (x & Hg & ->).
+  cbn [obs_of o_expmark ctx_tuple t_brun]. destruct (x_brun x) eqn:Er; [|reflexivity].
+  rewrite (q_run_mark _ Hq _ x Hg Er). reflexivity.
+Qed.
+
+Lemma reach_K c steps h0 t0 l0 : NoDup (keys (ctxs (run c (init h0 t0 l0) steps))).
+Proof. apply reach_kc. simpl. constructor. Qed.
+
 Lemma reach_S c steps h0 t0 l0 : NoDup (create_txhs steps) -> SInv (run c (init h0 t0 l0) steps).
 Proof.
   intros Hnd. pose proof (fresh_history_from_distinct_hashes_lemma c steps h0 t0 l0 Hnd) as Hf.
@@ -184,4 +331,28 @@ Proof.
   do 16 (split_seg E; [not_here E|]).
   apply in_map_iff in E. destruct E as (e & E & Hin). injection E as E.
   pose proof (c08_clause9 univ code nc cb s e Hb Hin) as H1. cbv zeta in H1. exact (eq_true_false_abs _ H1 E).
+Qed.
+
+(** clause 8: the three lists after nine other segments *)
+Theorem model_passes_C08_clause_8_lemma :
+  forall c steps h0 t0 l0 univ seen fired tr sc p st code nc cb,
+    NoDup (create_txhs steps) ->
+    let s := run c (init h0 t0 l0) steps in
+    holds_C08 seen fired tr sc p st (obs_of univ code nc cb s) <> 8.
+Proof.
+  intros c steps h0 t0 l0 univ seen fired tr sc p st code nc cb Hnd s E.
+  destruct (reach_S c steps h0 t0 l0 Hnd) as (Hq & Hb). fold s in Hq, Hb.
+  pose proof (reach_K c steps h0 t0 l0) as Hk. fold s in Hk.
+  apply first_fail_in in E; [|lia]. unfold holds_C08 in E; cbv zeta in E.
+  do 9 (split_seg E; [not_here E|]).
+  split_seg E.
+  { apply in_map_iff in E. destruct E as (e & E & Hin). injection E as E.
+    pose proof (c08_clause8_new univ code nc cb s e Hq Hin) as H1. cbv zeta in H1. exact (eq_true_false_abs _ H1 E). }
+  split_seg E.
+  { apply in_map_iff in E. destruct E as (e & E & Hin). injection E as E.
+    pose proof (c08_clause8_exp univ code nc cb s e Hq Hin) as H1. cbv zeta in H1. exact (eq_true_false_abs _ H1 E). }
+  split_seg E.
+  { apply in_map_iff in E. destruct E as (e & E & Hin). injection E as E.
+    pose proof (c08_clause8_ctx univ code nc cb s e Hq Hk Hin) as H1. cbv zeta in H1. exact (eq_true_false_abs _ H1 E). }
+  not_here E.
 Qed.
